@@ -29,9 +29,8 @@ ORDERED, UNORDERED, CONTENT, SCALAR = "ORDERED", "UNORDERED", "CONTENT", "SCALAR
 
 # sort keys confirmed to be injective on what they sort (one line of reason each)
 INJECTIVE_KEYS = {
-    'lambdax:x["path"]': "image paths are distinct within a cell (quantifier of C08)",
-    "lambdax:x['path']": "image paths are distinct within a cell (quantifier of C08)",
-    "lambdax:x.uid": "variant UIDs are unique in a forest (C11)",
+    ("keyfn", "item", "path"): "image paths are distinct within a cell (quantifier of C08)",
+    ("keyfn", "attr", "uid"): "variant UIDs are unique in a forest (C11)",
 }
 
 
@@ -48,7 +47,7 @@ class OrderCtx(object):
                 meth = ev.value[1][2]
                 if meth == "sort" and not ev.guards:
                     key = dict(ev.value[3]).get("key")
-                    if key is None or (key[0] == "lambda" and key[1].replace(" ", "") in INJECTIVE_KEYS):
+                    if key is None or key in INJECTIVE_KEYS:
                         self.sorted_at.setdefault(loc[1:3], ev.seq)
                 if meth in ("append", "add", "extend", "insert"):
                     kinds = [self.kind(l[1]) for l in ev.loops]
@@ -154,7 +153,7 @@ class OrderCtx(object):
             f = t[1]
             if f == ("global", "sorted"):
                 key = dict(t[3]).get("key")
-                if key is not None and self.kind(t[2][0], at_seq) == UNORDERED and not (key[0] == "lambda" and key[1].replace(" ", "") in INJECTIVE_KEYS):
+                if key is not None and self.kind(t[2][0], at_seq) == UNORDERED and key not in INJECTIVE_KEYS:
                     # ties of a non-injective key are left in the iteration order of the unordered source
                     return UNORDERED
                 return ORDERED
@@ -260,8 +259,7 @@ def r_order(model, rep):
                 recv = e.ev.value[1][1] if e.ev.kind == "call" and e.ev.value[1][0] == "attr" else None
                 later_sort = [ev for ev in cx.events if recv is not None and ev.kind == "call" and ev.value[1] == ("attr", recv, "sort")
                               and ev.seq > e.ev.seq and not T.guard_tests(ev) and set(l[0] for l in ev.loops) <= set(l[0] for l in e.loops)
-                              and (dict(ev.value[3]).get("key") is None or (dict(ev.value[3]).get("key")[0] == "lambda"
-                                   and dict(ev.value[3]).get("key")[1].replace(" ", "") in INJECTIVE_KEYS))]
+                              and (dict(ev.value[3]).get("key") is None or dict(ev.value[3]).get("key") in INJECTIVE_KEYS)]
                 if not later_sort:
                     for l in e.loops:
                         if oc.kind(l[1]) == UNORDERED:
@@ -292,7 +290,7 @@ def r_order(model, rep):
                     ok, msg = False, "the list is sorted before the last append"
                 elif not (set(l[0] for l in s.loops) <= set(l[0] for l in e.loops)):
                     ok, msg = False, "the sort is not executed for every cell"
-                elif key is None or key[0] != "lambda" or not key[1].replace(" ", "").replace('"', "'").endswith("['path']"):
+                elif key != ("keyfn", "item", "path"):
                     ok, msg = False, "cells must be sorted by the image path (distinct per cell): key=%s" % (T.show(key) if key else None)
                 elif dict(s.value[3]).get("reverse") not in (None, ("const", False)):
                     pass
